@@ -69,10 +69,9 @@ inductive Api where
   | hvLoad                                      -- `HashMap.load`
   | dSet | dGet | dPop | dDel                   -- `TheDict.__setitem__/__getitem__/pop/__delitem__`
   | dIter (entries : Nat)                       -- `list(table)` when the map holds `entries` keys
-  | register (occupied : Nat) (enoentAsOSError : Bool)
-      -- `register_sync_group` when `randrange` hits `occupied` used slots before a free one;
-      -- `enoentAsOSError = false` is the code as it is (`lookup_elem` turns ENOENT into `KeyError`,
-      -- which `register_sync_group` does not catch), `true` the environment of C24's harness
+  | register (occupied : Nat)
+      -- `with register_sync_group(sg)` when `randrange` hits `occupied` used slots before a free one:
+      -- one lookup per slot tried, the update, and the delete when the `with` block is left
 deriving Repr
 
 def mapSize (sizes : List Nat) : Nat := roundUp8 sizes.sum
@@ -110,9 +109,9 @@ def calls (ncpu : Nat) : Decl → Api → List Call
   | .dict ks _ _ _, .dDel => [⟨bpf_DELETE, some ks.sum, none⟩]
   | .dict ks _ _ _, .dIter n =>
       ⟨bpf_NEXT_KEY, none, some ks.sum⟩ :: List.replicate n ⟨bpf_NEXT_KEY, some ks.sum, some ks.sum⟩
-  | .progArray, .register occ shim =>
+  | .progArray, .register occ =>
       List.replicate (occ + 1) ⟨bpf_LOOKUP, some prog_key_len, some prog_lookup_len⟩ ++
-      (if shim then [⟨bpf_UPDATE, some prog_key_len, some prog_update_len⟩, ⟨bpf_DELETE, some prog_key_len, none⟩] else [])
+      [⟨bpf_UPDATE, some prog_key_len, some prog_update_len⟩, ⟨bpf_DELETE, some prog_key_len, none⟩]
   | _, _ => []          -- mmap-based set/get, items of data already read, calls that do not apply to the map
 
 /-- bytes one user-space lookup/update transfers behind the value pointer -/
